@@ -1,10 +1,29 @@
-from ..runner import Harness, Spec
+import os
+
+from ..runner import LEAN, Harness, Spec, TieBroken, run_harness, write_if_changed
+
+
+def _schema_translator(ctx):
+    """reflection translator: runs TestVerifC13Schema inside cmd/otelcorecol (overlay) and installs its output as Gen/ConfigSchemas.lean"""
+    h = Harness(name="schema", module="cmd/otelcorecol", pkg="cmd/otelcorecol",
+                files={"zz_verif_c13_schema_test.go": "c13/schema_test.go", "zz_verif_c13_load_test.go": "c13/load_test.go"},
+                test="TestVerifC13Schema", timeout_s=900)
+    out = run_harness(ctx, h)
+    with open(out) as f:
+        body = f.read()
+    if "namespace OtelVerif.Gen.ConfigSchemas" not in body or ctx.cov["harness"]["schema"]["exit"] != 0:
+        raise TieBroken("configschemas", "the reflection translator did not produce a schema file")
+    changed = write_if_changed(os.path.join(LEAN, "OtelVerif/Gen/ConfigSchemas.lean"), body)
+    ctx.log("translator configschemas -> OtelVerif/Gen/ConfigSchemas.lean (%s)" % ("changed" if changed else "unchanged"))
+    ctx.cov["harness"].pop("schema", None)
+
 
 _E2E = {"zz_verif_c13_common_test.go": "c14/common_e2e.go", "zz_verif_c13_gen_test.go": "c14/gen.go"}
 
 SPEC = Spec(
     pid="C13",
     lean_modules=["OtelVerif.Props.C13"],
+    translators=[_schema_translator],
     harnesses=[
         Harness(name="walk", module="confmap/xconfmap", pkg="confmap/xconfmap",
                 files={"zz_verif_c13_walk_test.go": "c13/walk_test.go"},
@@ -16,7 +35,7 @@ SPEC = Spec(
                 files=dict(_E2E, **{"zz_verif_c13_dec_test.go": "c13/dec_test.go"}),
                 test="TestVerifC13Dec", driver="drv_c13", n={"quick": 2000, "thorough": 30000}, timeout_s=1200),
         Harness(name="load", module="cmd/otelcorecol", pkg="cmd/otelcorecol",
-                files={"zz_verif_c13_load_test.go": "c13/load_test.go"},
+                files={"zz_verif_c13_load_test.go": "c13/load_test.go", "zz_verif_c13_schema_test.go": "c13/schema_test.go"},
                 test="TestVerifC13Load", driver="drv_c13", n={"quick": 300, "thorough": 4000}, timeout_s=1200),
     ],
     rule="walk: generated trees over a fixed family of Go node types (structs/slices/arrays/maps/leaves with value-receiver, "
